@@ -45,6 +45,7 @@ template <unsigned S, unsigned A>
 struct alignas(A) Pay { uint8_t b[S]; };
 
 inline uint8_t payByte(uint8_t seed, unsigned i) {
+	if (seed == 253) return 0x00;   // the all-zero-bytes payload (indistinguishable from value-initialised storage)
 	if (i == 0) return seed;
 	if (seed == 255) return 0xFF;
 	if (seed == 254) return 0x00;
@@ -62,6 +63,7 @@ template <class P> inline void readPay(const P* p, uint8_t& has, uint8_t& seed, 
 	uint8_t raw[sizeof(P)];
 	memcpy(raw, reinterpret_cast<const void*>(p), sizeof(P));
 	seed = raw[0];
+	if (seed == 0) { bool allZero = true; for (unsigned i = 0; i < sizeof(P); ++i) if (raw[i]) allZero = false; if (allZero) seed = 253; }
 	for (unsigned i = 0; i < sizeof(P); ++i) if (raw[i] != payByte(seed, i)) exact = 0;
 }
 
@@ -114,7 +116,7 @@ template <int CFG> struct ZCfg;
 	template <> struct ZCfg<ID> { \
 		static constexpr int N = NN; static constexpr bool HAS_HEAD = HEAD; static constexpr bool IS_MANUAL = MANUAL; \
 		using Payload = PAYT; static constexpr int L = LL; static constexpr int CAP = CAPP; static constexpr int CTX = CTXK;
-#define VF_ZCFG_END };
+#define VF_ZCFG_END static constexpr int kind(int i) { return bare(i) ? 1 : 0; } };
 
 // CAP 0 = library default (= N); CTX 0 empty, 1 value, 2 reference, 3 pointer
 VF_ZCFG_BEGIN(0, 3, true, false, void, 4, 0, 0)
@@ -162,7 +164,14 @@ VF_ZCFG_END
 VF_ZCFG_BEGIN(14, 3, false, true, P2_2, 255, 2, 1)   // L = 255, manual, headless, payload
 	static constexpr int inj(int) { return 0; } static constexpr int headInj() { return 0; } static constexpr bool bare(int) { return false; }
 VF_ZCFG_END
-static constexpr int ZOO_COUNT = 15;
+template <> struct ZCfg<15> {   // states 1 and 2 define complementary halves of the callbacks
+	static constexpr int N = 4; static constexpr bool HAS_HEAD = true; static constexpr bool IS_MANUAL = false;
+	using Payload = void; static constexpr int L = 4; static constexpr int CAP = 0; static constexpr int CTX = 0;
+	static constexpr int inj(int) { return 0; } static constexpr int headInj() { return 0; }
+	static constexpr bool bare(int i) { return i == 1 || i == 2; }
+	static constexpr int kind(int i) { return i == 1 ? 2 : i == 2 ? 3 : 0; }
+};
+static constexpr int ZOO_COUNT = 16;
 
 // ---- config type builder --------------------------------------------------------------------------
 template <class C, int K> struct WithCtx;
@@ -182,7 +191,7 @@ template <class C, int CAP> struct WithCap { using type = C; };
 #endif
 
 template <int CFG> struct Runner;
-template <int CFG, int I, bool BARE> struct StT;
+template <int CFG, int I, int KIND> struct StT;   // KIND 0: every callback, 1: none, 2 / 3: complementary halves
 template <int CFG> struct Hd;
 
 template <int CFG, class Seq> struct RootOf;
@@ -195,8 +204,8 @@ template <int CFG, size_t... Is> struct RootOf<CFG, std::index_sequence<Is...>> 
 	using C5 = typename WithPay<C4, typename Z::Payload>::type;
 	using M = ffsm2::MachineT<C5>;
 	using type = typename std::conditional<Z::HAS_HEAD,
-		typename M::template Root<Hd<CFG>, StT<CFG, int(Is), Z::bare(int(Is))>...>,
-		typename M::template PeerRoot<StT<CFG, int(Is), Z::bare(int(Is))>...>>::type;
+		typename M::template Root<Hd<CFG>, StT<CFG, int(Is), Z::kind(int(Is))>...>,
+		typename M::template PeerRoot<StT<CFG, int(Is), Z::kind(int(Is))>...>>::type;
 };
 template <int CFG> struct Zoo {
 	using Z = ZCfg<CFG>;
@@ -209,19 +218,22 @@ template <int CFG> struct Zoo {
 	using GuardControl = typename FSM::GuardControl; using FullControl = typename FSM::FullControl; \
 	using ConstControl = typename FSM::ConstControl; using PlanControl = typename FSM::State::PlanControl;
 
+#define VF_CB_ENTRY_GUARD(SID, WHO) void entryGuard(GuardControl& c) { Runner<CFG>::cb(c, SID, M_ENTRY_GUARD, WHO, thisOk(), nullptr); }
+#define VF_CB_ENTER(SID, WHO) void enter(PlanControl& c) { Runner<CFG>::cb(c, SID, M_ENTER, WHO, thisOk(), nullptr); }
+#define VF_CB_REENTER(SID, WHO) void reenter(PlanControl& c) { Runner<CFG>::cb(c, SID, M_REENTER, WHO, thisOk(), nullptr); }
+#define VF_CB_PRE_UPDATE(SID, WHO) void preUpdate(FullControl& c) { Runner<CFG>::cb(c, SID, M_PRE_UPDATE, WHO, thisOk(), nullptr); }
+#define VF_CB_UPDATE(SID, WHO) void update(FullControl& c) { Runner<CFG>::cb(c, SID, M_UPDATE, WHO, thisOk(), nullptr); }
+#define VF_CB_POST_UPDATE(SID, WHO) void postUpdate(FullControl& c) { Runner<CFG>::cb(c, SID, M_POST_UPDATE, WHO, thisOk(), nullptr); }
+#define VF_CB_PRE_REACT(SID, WHO) template <class E> void preReact(const E& e, FullControl& c) { Runner<CFG>::cb(c, SID, M_PRE_REACT, WHO, thisOk(), &e); }
+#define VF_CB_REACT(SID, WHO) template <class E> void react(const E& e, FullControl& c) { Runner<CFG>::cb(c, SID, M_REACT, WHO, thisOk(), &e); }
+#define VF_CB_POST_REACT(SID, WHO) template <class E> void postReact(const E& e, FullControl& c) { Runner<CFG>::cb(c, SID, M_POST_REACT, WHO, thisOk(), &e); }
+#define VF_CB_QUERY(SID, WHO) template <class E> void query(E& e, ConstControl& c) const { Runner<CFG>::cb(c, SID, M_QUERY, WHO, thisOk(), &e); }
+#define VF_CB_EXIT_GUARD(SID, WHO) void exitGuard(GuardControl& c) { Runner<CFG>::cb(c, SID, M_EXIT_GUARD, WHO, thisOk(), nullptr); }
+#define VF_CB_EXIT(SID, WHO) void exit(PlanControl& c) { Runner<CFG>::cb(c, SID, M_EXIT, WHO, thisOk(), nullptr); }
+
 #define VF_CALLBACKS(SID, WHO) \
-	void entryGuard(GuardControl& c) { Runner<CFG>::cb(c, SID, M_ENTRY_GUARD, WHO, thisOk(), nullptr); } \
-	void enter(PlanControl& c) { Runner<CFG>::cb(c, SID, M_ENTER, WHO, thisOk(), nullptr); } \
-	void reenter(PlanControl& c) { Runner<CFG>::cb(c, SID, M_REENTER, WHO, thisOk(), nullptr); } \
-	void preUpdate(FullControl& c) { Runner<CFG>::cb(c, SID, M_PRE_UPDATE, WHO, thisOk(), nullptr); } \
-	void update(FullControl& c) { Runner<CFG>::cb(c, SID, M_UPDATE, WHO, thisOk(), nullptr); } \
-	void postUpdate(FullControl& c) { Runner<CFG>::cb(c, SID, M_POST_UPDATE, WHO, thisOk(), nullptr); } \
-	template <class E> void preReact(const E& e, FullControl& c) { Runner<CFG>::cb(c, SID, M_PRE_REACT, WHO, thisOk(), &e); } \
-	template <class E> void react(const E& e, FullControl& c) { Runner<CFG>::cb(c, SID, M_REACT, WHO, thisOk(), &e); } \
-	template <class E> void postReact(const E& e, FullControl& c) { Runner<CFG>::cb(c, SID, M_POST_REACT, WHO, thisOk(), &e); } \
-	template <class E> void query(E& e, ConstControl& c) const { Runner<CFG>::cb(c, SID, M_QUERY, WHO, thisOk(), &e); } \
-	void exitGuard(GuardControl& c) { Runner<CFG>::cb(c, SID, M_EXIT_GUARD, WHO, thisOk(), nullptr); } \
-	void exit(PlanControl& c) { Runner<CFG>::cb(c, SID, M_EXIT, WHO, thisOk(), nullptr); }
+	VF_CB_ENTRY_GUARD(SID, WHO) VF_CB_ENTER(SID, WHO) VF_CB_REENTER(SID, WHO) VF_CB_PRE_UPDATE(SID, WHO) VF_CB_UPDATE(SID, WHO) VF_CB_POST_UPDATE(SID, WHO) \
+	VF_CB_PRE_REACT(SID, WHO) VF_CB_REACT(SID, WHO) VF_CB_POST_REACT(SID, WHO) VF_CB_QUERY(SID, WHO) VF_CB_EXIT_GUARD(SID, WHO) VF_CB_EXIT(SID, WHO)
 
 template <int CFG, int I, int J>
 struct Inj : Zoo<CFG>::FSM::State {
@@ -237,13 +249,28 @@ template <int CFG, int I> struct StBase<CFG, I, 2> { using type = typename Zoo<C
 template <int CFG, int I> struct StBase<CFG, I, 3> { using type = typename Zoo<CFG>::FSM::template StateT<Inj<CFG, I, 0>, Inj<CFG, I, 1>, Inj<CFG, I, 2>>; };
 
 template <int CFG, int I>
-struct StT<CFG, I, false> : StBase<CFG, I, ZCfg<CFG>::inj(I)>::type {
+struct StT<CFG, I, 0> : StBase<CFG, I, ZCfg<CFG>::inj(I)>::type {
 	VF_FSM_TYPES(CFG)
 	bool thisOk() const;
 	VF_CALLBACKS(I, WHO_SELF)
 };
 template <int CFG, int I>
-struct StT<CFG, I, true> : Zoo<CFG>::FSM::State {};
+struct StT<CFG, I, 1> : Zoo<CFG>::FSM::State {};
+// states that define only half of the callbacks (no injections): which method records a non-verbose logger emits depends on exactly which ones exist
+template <int CFG, int I>
+struct StT<CFG, I, 2> : Zoo<CFG>::FSM::State {
+	VF_FSM_TYPES(CFG)
+	bool thisOk() const;
+	VF_CB_ENTRY_GUARD(I, WHO_SELF) VF_CB_REENTER(I, WHO_SELF) VF_CB_PRE_UPDATE(I, WHO_SELF) VF_CB_POST_UPDATE(I, WHO_SELF) VF_CB_REACT(I, WHO_SELF) VF_CB_EXIT(I, WHO_SELF)
+};
+template <int CFG, int I>
+struct StT<CFG, I, 3> : Zoo<CFG>::FSM::State {
+	VF_FSM_TYPES(CFG)
+	bool thisOk() const;
+	VF_CB_ENTER(I, WHO_SELF) VF_CB_UPDATE(I, WHO_SELF) VF_CB_PRE_REACT(I, WHO_SELF) VF_CB_POST_REACT(I, WHO_SELF) VF_CB_QUERY(I, WHO_SELF) VF_CB_EXIT_GUARD(I, WHO_SELF)
+};
+static constexpr uint16_t DEF_A = (1u << M_ENTRY_GUARD) | (1u << M_REENTER) | (1u << M_PRE_UPDATE) | (1u << M_POST_UPDATE) | (1u << M_REACT) | (1u << M_EXIT);
+static constexpr uint16_t DEF_B = (1u << M_ENTER) | (1u << M_UPDATE) | (1u << M_PRE_REACT) | (1u << M_POST_REACT) | (1u << M_QUERY) | (1u << M_EXIT_GUARD);
 
 static constexpr int HEAD_TAG = 255;  // pseudo state index used for the head's injections
 template <int CFG>
@@ -266,7 +293,7 @@ struct Tmpl {
 	using Instance = typename FSM::Instance;
 	using Payload = typename Z::Payload;
 	static constexpr int N = Z::N;
-	template <int I> using S = StT<CFG, I, Z::bare(I)>;
+	template <int I> using S = StT<CFG, I, Z::kind(I)>;
 	using Seq = std::make_index_sequence<N>;
 
 	template <class M, size_t... Is> static uint64_t activeMask(const M& m, std::index_sequence<Is...>) {
@@ -998,7 +1025,10 @@ struct Runner {
 		f.cfg = CFG; f.N = N; f.L = Z::L; f.head = Z::HAS_HEAD; f.manual = Z::IS_MANUAL;
 		if constexpr (HAS_PAY) { f.paySize = sizeof(Payload); f.payAlign = alignof(Payload); }
 		f.ctx = Z::CTX; f.cap = CAP;
-		for (int i = 0; i < N && i < 64; ++i) { f.inj[i] = Z::inj(i); if (Z::bare(i)) f.bare |= (1ull << i); }
+		for (int i = 0; i < N && i < 64; ++i) {
+			f.inj[i] = Z::inj(i); if (Z::bare(i)) f.bare |= (1ull << i);
+			f.defMask[i] = Z::kind(i) == 0 ? 0xFFFF : Z::kind(i) == 1 ? 0 : Z::kind(i) == 2 ? DEF_A : DEF_B;
+		}
 		f.headInj = Z::headInj();
 #ifdef VF_PLANS
 		f.hasPlans = 1;
@@ -1124,11 +1154,11 @@ template <int CFG> TaskV Runner<CFG>::scratch[2][260];
 template <int CFG, int I, int J> bool Inj<CFG, I, J>::thisOk() const {
 	using R = Runner<CFG>;
 	if constexpr (I == HEAD_TAG) return this == static_cast<const Inj*>(&R::ptr(W.cur)->template access<Hd<CFG>>());
-	else return this == static_cast<const Inj*>(&R::ptr(W.cur)->template access<StT<CFG, I, false>>());
+	else return this == static_cast<const Inj*>(&R::ptr(W.cur)->template access<StT<CFG, I, 0>>());
 }
-template <int CFG, int I> bool StT<CFG, I, false>::thisOk() const {
-	return this == &Runner<CFG>::ptr(W.cur)->template access<StT<CFG, I, false>>();
-}
+template <int CFG, int I> bool StT<CFG, I, 0>::thisOk() const { return this == &Runner<CFG>::ptr(W.cur)->template access<StT<CFG, I, 0>>(); }
+template <int CFG, int I> bool StT<CFG, I, 2>::thisOk() const { return this == &Runner<CFG>::ptr(W.cur)->template access<StT<CFG, I, 2>>(); }
+template <int CFG, int I> bool StT<CFG, I, 3>::thisOk() const { return this == &Runner<CFG>::ptr(W.cur)->template access<StT<CFG, I, 3>>(); }
 template <int CFG> bool Hd<CFG>::thisOk() const {
 	return this == &Runner<CFG>::ptr(W.cur)->template access<Hd<CFG>>();
 }
